@@ -244,6 +244,7 @@ def S.hvsAdd (s : S) (m : VoteRec) : Bool × S :=
 /-- doSendProposal: WAL write + sync, then broadcast (the relayed POL vote list and the
     block parts are not signed by this validator and are not recorded) -/
 def S.sendProposal (s : S) (b : Blk) (pol : Int) : S :=
+  if s.stuck then s else          -- (a Go panic in beginStep aborts the caller before this point)
   let m := Msg.proposal s.me s.height s.round b pol
   ((s.emit (.write .round (.msg m))).emit (.sync .round)).emit (.send m)
 
@@ -537,7 +538,7 @@ def asyncCommit (s : S) (h r : Nat) : S :=
 
 /-- an outstanding BlockManager callback runs -/
 def async (s : S) : S :=
-  if !s.started then s
+  if !s.started || s.stuck then s
   else match s.pend with
   | .none => s
   | .propose h r => asyncPropose { s with pend := .none } h r
@@ -592,6 +593,12 @@ def applyRoundWAL (s : S) : List Rec → S
     | v :: _ => applyRoundWAL (advanceByList s v) rs
   | .blockPart _ _ :: rs => applyRoundWAL s rs
 
+/-- applyLockWAL: a vote list holding a polka for a block starts a new part set for it -/
+def lockBp (s : S) (v : VoteRec) (bp : Option (Blk × Nat)) : Option (Blk × Nat) :=
+  match (votesFor s.hvs v.round .prevote).decision s.n with
+  | some (some b) => some (b, v.round)
+  | _ => bp
+
 /-- applyLockWAL; `bp` = (bpset, bpsetLockRound), `last` = (lastBPSet, lastBPSetLockRound) -/
 def applyLockWAL (s : S) (bp : Option (Blk × Nat)) (last : Option (Blk × Nat)) : List Rec → S
   | [] =>
@@ -603,10 +610,7 @@ def applyLockWAL (s : S) (bp : Option (Blk × Nat)) (last : Option (Blk × Nat))
     let s := addVotes s (v :: vl)
     if v.height != s.height then applyLockWAL s bp last rs
     else
-      let bp := match (votesFor s.hvs v.round .prevote).decision s.n with
-        | some (some b) => some (b, v.round)
-        | _ => bp
-      applyLockWAL (advanceByList s v) bp last rs
+      applyLockWAL (advanceByList s v) (lockBp s v bp) last rs
   | .blockPart h b :: rs =>
     if h != s.height then applyLockWAL s bp last rs
     else match bp with
